@@ -79,6 +79,11 @@ func c06Run(c *core.Ctx) *core.Result {
 	R := c.R
 	viewKind := core.Pick(R, []string{"disk", "disk", "synthetic", "fanout", "subdir", "filtered"})
 	mode := core.Pick(R, []string{"all", "reverse", "subset", "burst", "burst", "onarrival", "onarrival", "none"})
+	if R.P(1, 200) {
+		// scale: more entries than 16 bits can number
+		viewKind = "hugefanout"
+		mode = "subset"
+	}
 	invalid := ""
 	if R.P(1, 5) {
 		invalid = core.Pick(R, []string{"duplicate", "unknown", "nonfile"})
@@ -173,6 +178,24 @@ func c06Run(c *core.Ctx) *core.Result {
 				content[e.Path] = e.Data
 			}
 		}
+	case "hugefanout":
+		n := 65500 + R.Intn(2500)
+		t := &tree.Tree{}
+		t.Entries = append(t.Entries, tree.Entry{Path: "d", Type: tree.Dir, Perm: 0755, Mtime: 1e18})
+		for i := 0; i < n; i++ {
+			p := fmt.Sprintf("f%06d", i)
+			if i%2 == 0 {
+				p = "d/" + p
+			}
+			t.Entries = append(t.Entries, tree.Entry{Path: p, Type: tree.File, Perm: 0644, Mtime: 1e18 + int64(i), Data: []byte(fmt.Sprintf("%x", i))[:1+i%3]})
+		}
+		t.Sort()
+		fs = newSynthFS(t)
+		want = t.Entries
+		for _, e := range t.Entries {
+			content[e.Path] = e.Data
+		}
+		r.Count("views_with_more_than_65536_entries", 1)
 	case "fanout":
 		t := fanoutTree(R, R.Range(150, 400))
 		sf := newSynthFS(t)
@@ -188,6 +211,9 @@ func c06Run(c *core.Ctx) *core.Result {
 	}
 	rr := newRefReceiver(mode, invalid, R.Fork())
 	rr.ReqLinks = R.P(1, 2)
+	if viewKind == "hugefanout" {
+		rr.MaxReq = 600
+	}
 	prog := &progressRec{}
 	gr := R.Fork()
 	cfg := wire.Config{Cap: capn}
